@@ -122,7 +122,9 @@ def _nonlin_solver(fcn, x0, params,
         jacobian.update(xnew.clone(), ynew)
 
         # print out dx and df
-        to_stop = stop_cond.check(xnew, ynew, dx)
+        # an exact root is a converged point even if the last step was large
+        # (otherwise the next Jacobian solve yields a zero step and raises)
+        to_stop = stop_cond.check(xnew, ynew, dx) or bool(y_norm_new == 0)
         if verbose:
             if i < 10 or i % 10 == 0 or to_stop:
                 print("%6d: |dx|=%.3e, |f|=%.3e" % (i, dx_norm, y_norm))
